@@ -67,7 +67,8 @@ pub enum Step {
   /// update affected tasks, then require `then_require` in the same session.
   /// `pre_require`: tasks required top-down in the same session before the bottom-up build (resources that those
   /// executions write are added to the report). `shape` bit 0: a first bottom-up build is created, gets the report and
-  /// is dropped without being run; bit 1: a second bottom-up build with the same report follows in the same session.
+  /// is dropped without being run; bit 1: a second bottom-up build with the same report follows in the same session;
+  /// bit 2: a build is created, gets the report and is dropped before the top-down phase.
   BottomUp { report: Option<Vec<usize>>, then_require: Vec<Tid>, #[serde(default)] pre_require: Vec<Tid>, #[serde(default)] shape: u8, #[serde(default)] keep_going: bool },
   /// New session requiring every task known to the instance.
   ProbeAll,
@@ -387,7 +388,8 @@ pub fn gen_history(rng: &mut Rng, prog: &Program, cfg: &GenCfg) -> (Vec<(usize, 
         if rng.chance(cfg.bottom_up) {
           let then_require = if rng.chance(40) { roots(rng, false) } else { vec![] };
           let pre_require = if cfg.in_session && rng.chance(45) { roots(rng, false) } else { vec![] };
-          let shape = if cfg.in_session { *rng.pick(&[0u8, 0, 0, 0, 1, 2, 2, 3]) } else { 0 };
+          let mut shape = if cfg.in_session { *rng.pick(&[0u8, 0, 0, 0, 1, 2, 2, 3]) } else { 0 };
+          if cfg.in_session && !pre_require.is_empty() && rng.chance(35) { shape |= 4; }
           // Sometimes the caller reports more than what changed (every resource, in an arbitrary order): unchanged
           // resources must not schedule anything.
           let report = if cfg.in_session && rng.chance(20) { let mut v: Vec<usize> = (0..nres).collect(); for i in (1..v.len()).rev() { let j = rng.below(i as u64 + 1) as usize; v.swap(i, j); } Some(v) } else { None };
